@@ -577,12 +577,14 @@ class SecopClient(ProxyClient):
             pass
         if self.io:
             self.io.shutdown()
-        if self._txthread:
+        txthread = self._txthread  # a concurrent disconnect might clear the attribute
+        if txthread:
             self.txq.put(None)  # shutdown marker
-            self._txthread.join()
+            txthread.join()
             self._txthread = None
-        if self._rxthread:
-            self._rxthread.join()
+        rxthread = self._rxthread
+        if rxthread:
+            rxthread.join()
             self._rxthread = None
         if self.io:
             self.io.disconnect()
